@@ -59,6 +59,7 @@ mod tests {
     use super::*;
     /// Native demonstration used as replay: "a/b" with `push` rejected for `a`, then "c".
     #[test]
+    #[ignore = "demonstrates known finding C42-F10: fails while the finding exists; run by the check as replay"]
     fn balanced_after_rejected_directory_push() {
         let mut stack = Stack::new(path_of(&[]));
         let mut d = Recorder::new(1, 0);
